@@ -22,7 +22,7 @@ KERNELS = ["extract_tim", "extract_bpass", "mask_channels", "dedisperse", "subba
 EXTRA = ["fold", "unpack1_8_big", "unpack1_8_little", "unpack2_8_big", "unpack2_8_little", "unpack4_8_big", "unpack4_8_little",
          "pack1_8_big", "pack1_8_little", "pack2_8_big", "pack2_8_little", "pack4_8_big", "pack4_8_little"]
 PROBES = [">=2-threads-alive-at-a-switch", "extra-kernel-run", "degenerate-shape", "chunks>threads", "compiled:threads>=8", "compiled:chunksize>0",
-          "compiled:layer:workqueue", "compiled:layer:omp"] + [f"sim:{k}" for k in KERNELS] + [f"compiled:{k}" for k in KERNELS]
+          "compiled:layer:workqueue", "compiled:layer:omp", "compiled:iterations-just-above-threads-x-2^k"] + [f"sim:{k}" for k in KERNELS] + [f"compiled:{k}" for k in KERNELS]
 COMPONENTS = {
     "real": ["mode=sim: the Python source of each kernel in sigpyproc/core/kernels.py (prange bodies outlined mechanically, nested njit helpers replaced by their py_func)",
              "mode=compiled: the njit-compiled kernels on numba's real thread pool (workqueue and omp layers)"],
